@@ -45,12 +45,16 @@ def make_pool(level):
     p['XE'] = Field('PID_3', version='2.5.1', validation_level=level)  # the errata release of the same version
     p['XE'].value = 'E1'
     p['SE'] = Segment('PID', version='2.5.1', validation_level=level)
+    # a field that belongs to a Z segment: offered to PID it is refused because PID has no child of that name
+    p['SZ'] = Segment('ZIN', version=V, validation_level=level)
+    p['ZF'] = p['SZ'].add_field('ZIN_1')
+    p['ZF'].value = 'z'
     return p
 
 
 PAIRS = [('S1', 'M'), ('S2', 'M'), ('SI', 'G'), ('G', 'M'), ('F1', 'S1'), ('F1', 'S2'), ('F2', 'S1'), ('C1', 'F1'), ('C2', 'F1'),
          ('C1', 'F2'), ('SC', 'C2'), ('SC', 'C1'), ('XL', 'S1'), ('XV', 'S1'), ('S1', 'G'), ('F1', 'M'), ('C1', 'S1'), ('M', 'S1'),
-         ('S1', 'S2'), ('F1', 'F2'), ('XE', 'S1'), ('SE', 'M'), ('F1', 'SE')]
+         ('S1', 'S2'), ('F1', 'F2'), ('XE', 'S1'), ('SE', 'M'), ('F1', 'SE'), ('ZF', 'S1')]
 
 
 class PoolSpec(hist.Spec):
